@@ -257,6 +257,14 @@ pub fn go_args(rng: &mut Rng, stm: Color, max_plan: u128) -> String {
             parts.push(k);
             parts.push(v);
         }
+        if rng.chance(1, 10) {
+            // a long run of words the engine does not know (token counts around 2^8, 2^9 and
+            // beyond): all of it is to be ignored, however many there are
+            let n = *rng.pick(&[120usize, 250, 253, 254, 255, 256, 257, 258, 300, 511, 513, 1000]);
+            let junk: Vec<&str> = (0..n).map(|_| *rng.pick(&["foo", "bar", "infinite", "ponder", "xyzzy", "-", "depth", "nodes"])).collect();
+            let at_front = rng.chance(1, 2);
+            if at_front { parts.insert(0, junk.join(" ")) } else { parts.push(junk.join(" ")) }
+        }
         let args = parts.join(" ");
         let line = if args.is_empty() { "go".to_string() } else { format!("go {}", args) };
         // "movestogo 0" (or a negative count) tells the engine nothing usable; the slice that is
